@@ -9,6 +9,14 @@ from vlib.tlc import run_tlc
 
 PROP = 'C08'
 
+MANIFEST = dict(
+    technique='TLA+ model (IdAlloc) checked by TLC; every model transition replayed on real VMF objects; implementation records validated by TLC (IdAllocTrace)',
+    category='model_checking',
+    text='TLC exhausts the ID allocation design (3 object slots x 2 maps x desired IDs -1..3; fixup tables over 3 variables) with uniqueness, positivity, hint and no-leak invariants; every one of the ~65k transitions is executed on real Entity/Solid/Side/VisGroup/EntityGroup/EntityFixup objects and each logged step must be exactly the step IdAllocOps takes from the logged pre-state; seeded random histories, parsed documents with colliding IDs, node IDs and fixup tables beyond the bounds are validated the same way.',
+    design_ref='4 (C08)',
+    note='Trusts TLC, the projection (IDMan._used/search_pos, .id attributes) and CPython reference counting for object destruction. Pure-Python tree only.',
+)
+
 
 def sig_of(m: dict) -> dict:
     rec = m['rec']
@@ -90,5 +98,22 @@ def run(tier: str, seed: int) -> int:
                            assumptions=['pure-Python srctools from /repo/src (Cython accelerators cannot be built here)',
                                         'CPython reference counting destroys an unreferenced object immediately (gc.collect() is also called)',
                                         'TLC 1.8 evaluates IdAllocOps correctly'])
+    finally:
+        work.cleanup()
+
+
+def replay(path: str) -> int:
+    """Re-execute a replay file's history on the current tree and let TLC judge it again."""
+    work = core.Work()
+    try:
+        out = work.path('replay.ndjson')
+        core.run_driver('c08_driver.py', ['replay', path, out])
+        mism, _ = core.validate_records('IdAllocTrace', 'IdAllocTrace.cfg', out, work=work, shards=1)
+        known, new = core.classify(PROP, [sig_of(m) for m in mism])
+        for s in new:
+            print(f'VIOLATION property={PROP} replay={path} clause={s["clause"]}')
+        if not new:
+            print(f'OK replay={path}: no violation reproduced ({len(mism)} known)')
+        return 1 if new else 0
     finally:
         work.cleanup()
